@@ -98,6 +98,10 @@ def gen_tree(rng, depth, names):
         return Node("^", gen_tree(rng, depth - 1, names), e)
     if k in ("max", "min"):
         return Node(k, *[gen_tree(rng, depth - 1, names) for _ in range(rng.randint(2, 3))])
+    if k == "exp" and rng.chance(1, 3):
+        # constant sub-expressions the symbolic front end folds to named constants (Euler's number): still numbers, whatever
+        # parameters happen to be called
+        return Node("exp", rng.choice([Node("num", 1), Node("-", Node("num", 2), Node("num", 1)), Node("abs", Node("neg", Node("num", 1)))]))
     return Node(k, gen_tree(rng, depth - 1, names))
 
 
@@ -230,6 +234,19 @@ def malformed(ctx, rng):
             pass
         jobs.append({"op": "formula", "num": "float", "src": src, "species": SPECIES, "params": PARAMS, "x": [f2b(1.0)] * 3,
                      "p": [f2b(1.0)] * len(PARAMS), "V": f2b(1.0), "t": f2b(0.0)})
+        ctx.count("malformed")
+    # a constant sub-expression that is not a real number is no representable formula either, whatever parameters exist
+    for src in ("k_cat*A*(-1)^0.5", "A + (0 - 4)^0.5*I"):
+        ctx.begin_case({"src": src, "malformed": True})
+        ctx.evaluated()
+        try:
+            M_ = Model(species=list(SPECIES), parameters={p: 1.0 for p in PARAMS}, reactions=[([], ["A"], "general", {"rate": src})],
+                       initial_condition_dict={s: 1.0 for s in SPECIES})
+            v_ = float(M_.get_propensities()[0].py_get_propensity(np.array([1.0] * len(M_.get_species_list())), M_.get_parameter_values()))
+            if math.isfinite(v_):
+                ctx.violation("accepted-invalid/non-real", "the formula '%s' (the square root of a negative constant) is accepted and evaluates to %r" % (src, v_), {"src": src})
+        except Exception:
+            pass
         ctx.count("malformed")
     for src, r in zip(cases, driver_batch(jobs)):
         if not ("error" in r or r.get("parse") == "error" or r.get("translate") == "error"):
